@@ -1,4 +1,4 @@
-FIX_COMMITS = ['056fe00 (C14)', '194b898 (C18)', 'e5d1f9f (C05 sweep tie-break)', 'c0a262c (C10)', '7c606c6 (C20)', 'cbc693c (C05/C06 BP-OSD)', 'a832f8b (C06 XCube)', 'a7ca295 (C05 MBP)', '0d33a68 (C12)', '7651b61 (C13)']
+FIX_COMMITS = ['056fe00 (C14)', '194b898 (C18)', 'e5d1f9f (C05 sweep tie-break)', 'c0a262c (C10)', '7c606c6 (C20)', 'cbc693c (C05/C06 BP-OSD)', 'a832f8b (C06 XCube)', 'a7ca295 (C05 MBP)', '0d33a68 (C12)', '7651b61 (C13)', '9f095a3 (C19)']
 CHECKS = {
  'C14': dict(category='proof',
    text='For all (n_nodes, n_cores, n_inputs, trials, job_idx) - no bound - the body of run_parallel is executed symbolically and 10 '
@@ -118,5 +118,12 @@ CHECKS['C13'] = dict(category='proof',
         'exactly that code, model and rate); list of ranges = concatenation. Random specifications and every registered name through the real functions as bounded cross-check.',
    note='Assumed: itertools.product enumerates the Cartesian product exactly once each (the "none dropped, none duplicated" part rests on it plus the one-run-per-element obligation).',
    technique='AST registry check; symbolic execution of constructors/params; generic-iteration rule for the product loops; run-time contracts')
+CHECKS['C19'] = dict(category='other',
+   text='A slice of generate_input (the loop over bias ratios, everything it needs executed symbolically, dropped statements listed in the evidence) is run for two symbolic ratios: z3 (strings) '
+        'proves the two iterations write different files, so each bias ratio keeps its own specification; the written ranges dict is shown to hold this iteration\'s direction, the parsed sizes '
+        'and the rate list; get_direction_from_bias_ratio is proved (reals) to be non-negative, to sum to 1 and to put eta/(1+eta) (1 at infinity) on the chosen axis. The floating-point '
+        'progression of read_range_input cannot be proved for all inputs: it is checked against an exact decimal oracle on a grid, and the real CLI output is read back through the simulator (bounded).',
+   note='Assumed: str() of distinct bias ratios is distinct; reals for floats in the direction formula. Level "other" because the min:max:step clause is bounded only.',
+   technique='string/real VCs from a symbolically executed slice of the CLI command; exact-decimal run-time oracle for the float range')
 _PENDING = 'check under construction in this session (contract-based check planned in DESIGN.md section 3); not claimed until its command exists'
 NOT_APPLICABLE = {p: _PENDING for p in ['C%02d' % i for i in range(1, 21)]}
